@@ -17,6 +17,9 @@ COVER_CLASSES = ["kPathCover", "MinPathCover", "kPathCoverCycles", "MinPathCover
 FD_CLASSES = ["kFlowDecomp", "MinFlowDecomp", "kFlowDecompCycles", "MinFlowDecompCycles"]
 
 
+RESCUE_COUNT = 0
+
+
 def is_cyclic_class(cls):
     return cls.endswith("Cycles")
 
@@ -96,8 +99,29 @@ def construct(case, G=None, extra_kw=None):
     return cls(G, flow_attr="flow", **kw)
 
 
-def observe(case, G=None, extra_kw=None):
-    """Construct + solve + read. Returns dict with exc / solved / sol / obj / model / status."""
+def observe(case, G=None, extra_kw=None, rescue=True):
+    """Construct + solve + read. Returns dict with exc / solved / sol / obj / model / status.
+    Trusted-base guard: if the model ends unsolved with status kInfeasible, it is re-run once with HiGHS presolve
+    switched off (a documented solver option); if that run is solved, the first verdict was a HiGHS presolve error
+    (observed on the pinned highspy: a feasible 17-column MinErrorFlow model is declared infeasible by presolve), the
+    second observation is used and obs['presolve_rescue'] is set so that the check can count it."""
+    obs = _observe(case, G, extra_kw)
+    if rescue and obs["exc"] is None and obs["solved"] is False:
+        kw2 = dict(extra_kw or {})
+        so = dict((case.get("kw", {}) or {}).get("solver_options") or {})
+        so.update(kw2.get("solver_options") or {})
+        so["presolve"] = "off"
+        kw2["solver_options"] = so
+        obs2 = _observe(case, G, kw2)
+        if obs2["exc"] is None and obs2["solved"]:
+            obs2["presolve_rescue"] = True
+            global RESCUE_COUNT
+            RESCUE_COUNT += 1
+            return obs2
+    return obs
+
+
+def _observe(case, G=None, extra_kw=None):
     obs = {"exc": None, "exc_type": None, "solved": None, "sol": None, "obj": None, "model": None, "phase": None}
     try:
         obs["phase"] = "construct"
